@@ -90,6 +90,13 @@ func Reset(plan *Plan) {
 	ctl.sched = nil
 }
 
+// Count is the number of operations performed since the last Reset.
+func Count() int {
+	ctl.mu.Lock()
+	defer ctl.mu.Unlock()
+	return ctl.count
+}
+
 func Log() []OpRec {
 	ctl.mu.Lock()
 	defer ctl.mu.Unlock()
